@@ -121,6 +121,7 @@ def report(prop, tier, seed, results, meta, t0, write=True, verbose=False):
     samples = []
     unsupported = []
     extra_cov = {}
+    refuted = []
     for r in results:
         if r.get("status") == "error":
             errors.append((r.get("contract"), r.get("error")))
@@ -162,16 +163,34 @@ def report(prop, tier, seed, results, meta, t0, write=True, verbose=False):
                 undecided.append(ob)
                 continue
             # refuted
-            rp = ob.get("replay") or {}
-            hit = None
-            for k in known:
-                if k.get("obligation") == ob["base"] and (not k.get("witness_class") or k.get("witness_class") == rp.get("witness_class")):
-                    hit = k
-                    break
-            if hit is not None and (rp.get("confirmed") or hit.get("accept_unreplayed")):
-                known_hits.append((hit, ob))
+            refuted.append(ob)
+    # group refuted obligations by base name: the paths of one obligation are witnesses of the same claim
+    by_base = {}
+    for ob in refuted:
+        by_base.setdefault(ob["base"], []).append(ob)
+    for base, obs in by_base.items():
+        hit = None
+        hit_ob = None
+        for k in known:
+            if k.get("obligation") != base:
                 continue
-            violations.append(ob)
+            for ob in obs:
+                rp = ob.get("replay") or {}
+                if (rp.get("confirmed") and (not k.get("witness_class") or k.get("witness_class") == rp.get("witness_class"))) or k.get("accept_unreplayed"):
+                    hit, hit_ob = k, ob
+                    break
+            if hit:
+                break
+        if hit is not None:
+            # every confirmed witness must be of the recorded class; a different class is a different violation
+            others = [ob for ob in obs if (ob.get("replay") or {}).get("confirmed") and hit.get("witness_class")
+                      and (ob.get("replay") or {}).get("witness_class") != hit.get("witness_class")]
+            known_hits.append((hit, hit_ob))
+            violations.extend(others)
+        else:
+            # prefer a confirmed witness for the report
+            obs.sort(key=lambda o: not (o.get("replay") or {}).get("confirmed"))
+            violations.extend(obs)
     rc = 0
     lines = []
     seen_known = set()
@@ -244,6 +263,9 @@ def report(prop, tier, seed, results, meta, t0, write=True, verbose=False):
         os.makedirs(EVIDENCE, exist_ok=True)
         with open(os.path.join(EVIDENCE, prop + ".json"), "w") as f:
             json.dump(ev, f, indent=1, default=repr)
+    if verbose:
+        for r in sorted(results, key=lambda r: -r.get("wall_s", 0))[:8]:
+            print("  SLOW %-90s wall=%.1fs solver=%.1fs paths=%s" % (r.get("contract"), r.get("wall_s", 0), r.get("solver_s", 0), r.get("paths")))
     for ln in lines:
         print(ln)
     print("%s tier=%s contracts=%d obligations=%d discharged=%d undecided=%d unsupported=%d known=%d violations=%d solver=%.1fs wall=%.1fs level=%s"
